@@ -273,7 +273,7 @@ impl Future for LeafReq {
         let r = self.inner.as_mut().poll(cx);
         if let Poll::Ready(o) = &r {
             self.done = true;
-            self.sink.push(Tr::Got(self.path.clone(), o.nonce));
+            self.sink.push(Tr::Got(self.path.clone(), o.nonce, o.digest()));
         }
         r
     }
@@ -310,7 +310,7 @@ impl Stream for LeafSub {
         }
         let r = self.inner.as_mut().poll_next(cx);
         match &r {
-            Poll::Ready(Some(o)) => self.sink.push(Tr::Item(self.path.clone(), o.nonce)),
+            Poll::Ready(Some(o)) => self.sink.push(Tr::Item(self.path.clone(), o.nonce, o.digest())),
             Poll::Ready(None) => {
                 self.ended = true;
                 self.sink.push(Tr::StreamEnd(self.path.clone()));
